@@ -154,19 +154,23 @@ def t_casts(ctx, it):
     ctx.oblige("from_float_value([]).empty-value", e.quantized == [] and e.to_float() == [])
 
 
-def mk_halfbucket(dt):
-  """Standard rounding model: every float operation returns (exact)(1+d), |d| <= 2^-24; comparisons exact."""
+def mk_halfbucket(dt, diag=False):
+  """Standard rounding model: every float operation returns (exact)(1+d), |d| <= 2^-24; comparisons exact.
+  diag: square input stored with extract_diagonal=True, claim for the off-diagonal entries."""
 
   def t(ctx, it):
     from pyvc import rnd
     with rnd.rnd_mode():
       q = it.load_module(QU)
-      dims = (spec.fresh_int("d0", lo=1), spec.fresh_int("d1", lo=1))
+      d0 = spec.fresh_int("d0", lo=1)
+      dims = (d0, d0) if diag else (d0, spec.fresh_int("d1", lo=1))
       x = rnd.opaque_rnd("x", dims)
       idx = (spec.fresh_int("i0"), spec.fresh_int("i1"))
       ctx.assume(sym.sand(idx[0] >= 0, idx[0] < dims[0], idx[1] >= 0, idx[1] < dims[1]))
+      if diag:
+        ctx.assume(idx[0] != idx[1])
       ctx.index_terms.append(idx[0])
-      qv = q.QuantizedValue.from_float_value(x, T.as_dtype(dt))
+      qv = q.QuantizedValue.from_float_value(x, T.as_dtype(dt), True) if diag else q.QuantizedValue.from_float_value(x, T.as_dtype(dt))
       deq = qv.to_float().at(idx)
       b = qv.bucket_size.at(idx[1:])
       xi = x.at(idx)
@@ -233,6 +237,7 @@ def tasks(tier):
       ts.append(Task(f"no-wrap/zeros[{dt},rank={rank}]", mk_nowrap(dt, rank)))
     ts.append(Task(f"diagonal[{dt}]", mk_diag(dt)))
     ts.append(Task(f"half-bucket[{dt}]", mk_halfbucket(dt)))
+    ts.append(Task(f"half-bucket[{dt},extract_diagonal]", mk_halfbucket(dt, True)))
     ts.append(Task(f"A'[{dt}] standard rounding model", mk_aprime_rnd(dt)))
   ts.append(Task("casts", t_casts))
   if tier == "thorough":
